@@ -25,8 +25,15 @@ for d in sorted(glob.glob('/verif/seeded/*/')):
         rows.append((name, m.get('source','')[:40], '; '.join(res), 'demo fails with / passes without: '+('confirmed' if demo_ok else 'see meta')))
     else:
         prop=m.get('property') or m.get('properties') or ''
-        vl=m.get('violation_line') or m.get('observed') or m.get('violation') or ''
+        # the builder's meta.json files use several key names for the same thing
+        vl=(m.get('violation_line') or m.get('observed_violation_line') or m.get('violation_lines')
+            or m.get('all_violation_lines') or m.get('observed') or m.get('violation') or '')
         if isinstance(vl,list): vl=vl[0] if vl else ''
+        if not isinstance(vl,str) or 'VIOLATION' not in vl:
+            # last resort: any string value (one level deep) that carries a VIOLATION line
+            cand=[x for v in m.values() for x in (v if isinstance(v,list) else [v])
+                  if isinstance(x,str) and x.startswith('VIOLATION')]
+            vl=cand[0] if cand else (vl if isinstance(vl,str) else '')
         rows.append((name,'builder experiment',f"{prop}: {str(vl)[:90]}",''))
 with open('/verif/seeded/SUMMARY.md','w') as f:
     f.write('# Seeded changes and what the checks report\n\n| change | source | result | demonstration |\n|---|---|---|---|\n')
